@@ -39,15 +39,32 @@ def rule_a(ctx, ix):
     if f is None:
         raise AnalysisError('Data.join_on_key vanished')
     s, other, cid, cido = f.params[:4]
-    st = {unparse(x.targets[0]): unparse(x.value).replace(' ', '') for x in walk_no_nested(f.node)
-          if isinstance(x, ast.Assign) and '_key_joins[' in unparse(x.targets[0])}
-    fwd = st.get('%s._key_joins[%s]' % (s, other))
-    bwd = st.get('%s._key_joins[%s]' % (other, s))
-    ctx.ob(R, f.construct, 'the join is stored on this dataset as (own keys, other keys)', fwd == '(%s,%s)' % (cid, cido),
-           detail='join_on_key stores %s under self._key_joins[other]' % fwd, where=f.where)
-    ctx.ob(R, f.construct, 'the reverse join is stored on the other dataset with the swapped tuple', bwd == '(%s,%s)' % (cido, cid),
-           detail='join_on_key stores %s under other._key_joins[self] (expected the swapped tuple (%s, %s)): selections do not '
-                  'propagate from this dataset to the other one%s' % (bwd, cido, cid, '' if bwd else ' - the reverse registration is missing'),
+    # roles: whatever is computed from `cid` are this dataset's keys (L), from `cid_other` the other dataset's (R)
+    env = {cid: {'L'}, cido: {'R'}}
+
+    def tags(e):
+        out = set()
+        for n in ast.walk(e):
+            if isinstance(n, ast.Name) and n.id in env:
+                out |= env[n.id]
+        return out
+    stores = {}
+    for x in walk_no_nested(f.node):
+        if isinstance(x, ast.Assign):
+            t0 = x.targets[0]
+            if isinstance(t0, ast.Name):
+                tg = tags(x.value)
+                if tg:
+                    env[t0.id] = tg if t0.id not in (cid, cido) else env[t0.id] | tg
+            elif '_key_joins[' in unparse(t0) and isinstance(x.value, ast.Tuple) and len(x.value.elts) == 2:
+                stores[unparse(t0)] = (tags(x.value.elts[0]), tags(x.value.elts[1]), unparse(x.value))
+    fwd = stores.get('%s._key_joins[%s]' % (s, other))
+    bwd = stores.get('%s._key_joins[%s]' % (other, s))
+    ctx.ob(R, f.construct, 'the join is stored on this dataset as (own keys, other keys)', fwd is not None and fwd[:2] == ({'L'}, {'R'}),
+           detail='join_on_key stores %s under self._key_joins[other]' % (fwd[2] if fwd else None), where=f.where)
+    ctx.ob(R, f.construct, 'the reverse join is stored on the other dataset with the swapped tuple', bwd is not None and bwd[:2] == ({'R'}, {'L'}),
+           detail='join_on_key stores %s under other._key_joins[self] (expected the swapped tuple (other keys, own keys)): selections do not '
+                  'propagate from this dataset to the other one%s' % (bwd[2] if bwd else None, '' if bwd else ' - the reverse registration is missing'),
            where=f.where)
     lm = ix.cls('glue.core.link_manager.LinkManager')
     g = lm.resolve_func('add_link')
@@ -64,8 +81,10 @@ def rule_a(ctx, ix):
         ctx.ob(R, g.construct, 'data1 is joined on its own key (cids1) with data2 on cids2', 'cids1' in a[1] and 'cids2' in a[2],
                detail='the JoinLink is applied as join_on_key(%s): keys of the two datasets are crossed' % ', '.join(a), where=g.where)
     h = lm.resolve_func('remove_link')
-    pops = [c for c in calls_in(h.node) if call_name(c) == 'pop' and '_key_joins' in unparse(c.func)]
-    sides = {unparse(c.func).split('._key_joins')[0].rpartition('.')[2] for c in pops}
+    from ..util import expand_locals
+    pops = [expand_locals(h.node, c.func) for c in calls_in(h.node) if call_name(c) == 'pop']
+    pops = [c for c in pops if '_key_joins' in unparse(c)]
+    sides = {unparse(c).split('._key_joins')[0].rpartition('.')[2] for c in pops}
     ctx.ob(R, h.construct, 'removing a JoinLink removes the join from both datasets', sides == {'data1', 'data2'},
            detail='LinkManager.remove_link pops the key join from %s only: the other dataset keeps propagating selections through '
                   'a join that no longer exists' % (sorted(sides) or 'neither dataset'), where=h.where)
@@ -165,25 +184,41 @@ def rule_b(ctx, ix):
             tg = classify(shp[0].args[0], state)
             ctx.ob(R, '%s `%s`' % (f.construct, norm(r)), 'the mask is shaped like this dataset\'s (viewed) keys', tg == {'L'},
                    detail='`%s` shapes the result like %s keys' % (norm(r), _side(tg)), where=where(f, r))
-    # exhaustive dispatch on (len(cid1), len(cid2)) with a loud fall-through
-    chain = [n for n in lp.body if isinstance(n, ast.If) and 'len(' in unparse(n.test)]
-    tests = []
-    cur = chain[0] if chain else None
-    last_else = None
-    while cur is not None:
-        tests.append(unparse(cur.test).replace(' ', ''))
-        last_else = cur.orelse
-        cur = cur.orelse[0] if len(cur.orelse) == 1 and isinstance(cur.orelse[0], ast.If) else None
-    want = ['len(%s)==1andlen(%s)==1' % (c1, c2), 'len(%s)==len(%s)' % (c1, c2), 'len(%s)==1' % c1, 'len(%s)==1' % c2]
-    ctx.ob(R, f.construct + ' dispatch', 'the four join shapes are dispatched in order 1-1, n-n, 1-n, n-1', tests == want,
-           detail='the shape dispatch tests %s (expected %s)' % (tests, want), where=where(f, lp))
-    ok = bool(last_else) and any(isinstance(x, ast.Raise) for x in last_else)
+    # exhaustive dispatch on (len(cid1), len(cid2)) with a loud fall-through: the conditions under which the four results are
+    # returned, read as formulas (elif chain, guard clauses and local names for the lengths are all the same thing)
+    from .. import cond
+    A = cond.T('eq|%s|%s' % tuple(sorted(('len(%s)' % c1, '1'))))
+    B = cond.T('eq|%s|%s' % tuple(sorted(('len(%s)' % c2, '1'))))
+    E = cond.T('eq|%s|%s' % tuple(sorted(('len(%s)' % c1, 'len(%s)' % c2))))
+    keep = lambda k: k in (A[1], B[1], E[1])
+    rets = [r for r in ast.walk(lp) if isinstance(r, ast.Return) and r.value is not None]
+    conds = []
+    for r in rets:
+        pc = cond.path_condition(f.node, r)
+        if pc is not None:
+            conds.append(cond.restrict(pc, keep))
+    nAB = cond.Not(cond.And(A, B))
+    want = [cond.And(A, B), cond.And(nAB, E), cond.And(nAB, cond.Not(E), A), cond.And(nAB, cond.Not(E), cond.Not(A), B)]
+    matched = [any(cond.equivalent(c, w) for c in conds) for w in want]
+    ctx.ob(R, f.construct + ' dispatch', 'the four join shapes are dispatched in order 1-1, n-n, 1-n, n-1', all(matched) and len(conds) == 4,
+           detail='the shape dispatch returns under the conditions %s (expected, in order: both single; equal lengths; left single; '
+                  'right single)' % (conds,), where=where(f, lp))
+    raises = [x for x in ast.walk(lp) if isinstance(x, ast.Raise) and not isinstance(pm_get(f, x), ast.ExceptHandler)]
+    ok = False
+    for x in raises:
+        pc = cond.path_condition(f.node, x)
+        if pc is not None and cond.equivalent(cond.restrict(pc, keep), cond.And(cond.Not(A), cond.Not(B), cond.Not(E))):
+            ok = True
     ctx.ob(R, f.construct + ' fall-through', 'an unsupported shape raises', ok,
-           detail='the shape dispatch has no raising else-branch', where=where(f, lp))
+           detail='the shape dispatch has no raising fall-through for shapes that are none of the four', where=where(f, lp))
     tail = body_stmts(f.node)[-1]
     ok = isinstance(tail, ast.Raise) and 'IncompatibleAttribute' in unparse(tail)
     ctx.ob(R, f.construct + ' no join', 'when no join can evaluate the selection the routine raises IncompatibleAttribute', ok,
            detail='get_mask_with_key_joins does not end with `raise IncompatibleAttribute`', where=f.where)
+
+
+def pm_get(f, node):
+    return parent_map(f.node).get(id(node))
 
 
 def _side(tags):
